@@ -233,6 +233,13 @@ OPS = ['index_or_insert', 'push', 'pop', 'array_coerce', 'index', 'decay']
 
 def jobs(ctx, tier):
     mir = ctx.mir('dev'); js = []
+    # "when compared with a scalar or used in arithmetic an array counts as its sequence length": the coercion table of C03
+    # restricted to pairs with an array on either side
+    from . import C03
+    for g in C03.GROUPS:
+        if g[0] in ('And',): continue
+        js.append(Job(f'array-as-length/{"+".join(g)}/array-left', C03.h_table, (mir, g, 5, None), witness=[f'table-{o}' for o in g], weight=3))
+        js.append(Job(f'array-as-length/{"+".join(g)}/array-right', C03.h_table, (mir, g, None, 5), witness=[f'table-{o}' for o in g], weight=3))
     for op in OPS:
         for ka in range(6):
             js.append(Job(f'{op}/{KINDS[ka]}', h_array, (mir, op, ka), witness=[f'{op}-done'], str_mode='opaque', weight=6 if ka == 5 else 1))
@@ -304,6 +311,9 @@ def validate(ctx):
 def replay(ctx, f):
     cex = f.get('cex') or {}
     out = {'reproduced': None}
+    if 'operator' in cex:
+        from . import C03
+        return C03.replay(ctx, f)
     if 'op' not in cex: return out
     res = {}
     for prof in ('dev', 'release'):
